@@ -1,27 +1,1060 @@
-(* proofs about ModelBuilder.v (property C15) *)
+(* ModelBuilderP.v — the builder model (Model/ModelBuilder.v) meets its declarative
+   specification (Model/ModelBuilderSpec.v):
+     no_panic, run_ok_iff, run_err_sound, sticky, and concrete non-vacuity examples. *)
 From Coq Require Import List Bool Arith Lia.
 Import ListNotations.
-From VP Require Import Model.ModelBuilder.
-Set Implicit Arguments.
+From VP Require Import Model.ModelBuilder Model.ModelBuilderSpec.
 
-Section ModelBuilderP.
+Section Proofs.
   Variables name Fn Fn0 X Sc : Type.
   Variable name_eqb : name -> name -> bool.
   Variable has_comma : name -> bool.
   Variable arity : Fn -> nat.
+  Hypothesis name_eqbP : forall a b, name_eqb a b = true <-> a = b.
 
+  (* ---------- local names with all parameters fixed ---------- *)
+  Notation mberr := (mberr name).
+  Notation wfn := (wfn Fn).
+  Notation mfun := (mfun Fn Fn0).
+  Notation fbuilder := (fbuilder name Fn Fn0).
+  Notation unfinished := (unfinished name Fn Fn0 X Sc).
+  Notation sbuilder := (sbuilder name Fn Fn0 X Sc).
+  Notation mop := (mop name Fn Fn0 X Sc).
+  Notation item := (item name Fn Fn0 X Sc).
+  Notation group := (list name * Fn * list (name * Fn))%type.
+
+  Notation mem := (@mem name name_eqb).
+  Notation uniq := (@uniq name name_eqb).
+  Notation position := (@position name name_eqb).
+  Notation cpn := (@check_parameter_names name name_eqb has_comma).
+  Notation cim := (@create_index_mapping name name_eqb).
+  Notation create_wrapped := (@create_wrapped name Fn name_eqb has_comma arity).
+  Notation fb_new := (@fb_new name Fn Fn0 name_eqb has_comma arity).
+  Notation deriv_index := (@deriv_index name name_eqb).
+  Notation fb_partial_deriv := (@fb_partial_deriv name Fn Fn0 name_eqb has_comma arity).
+  Notation check_completion := (@check_completion name Fn Fn0 name_eqb has_comma).
+  Notation fb_build := (@fb_build name Fn Fn0 name_eqb has_comma).
+  Notation sb_new := (@sb_new name Fn Fn0 X Sc name_eqb has_comma).
+  Notation finalize := (@finalize name Fn Fn0 X Sc name_eqb has_comma).
+  Notation step_normal := (@step_normal name Fn Fn0 X Sc name_eqb has_comma arity).
   Notation step := (@step name Fn Fn0 X Sc name_eqb has_comma arity).
   Notation sb_build := (@sb_build name Fn Fn0 X Sc name_eqb has_comma).
+  Notation run_builder := (@run_builder name Fn Fn0 X Sc name_eqb has_comma arity).
+  Notation try_into := (@try_into name Fn Fn0 X Sc).
+  Notation push_fun := (@push_fun name Fn Fn0 X Sc).
+  Notation first_unused := (@first_unused name Fn Fn0).
+  Notation first_missing := (@first_missing name Fn).
+  Notation has_key := (@has_key Fn).
 
-  (* once a defect has been recorded, no later call can clear it *)
-  Lemma fold_error e ops : fold_left step ops (SError e) = SError e.
-  Proof. induction ops as [|o ops IH]; [reflexivity|exact IH]. Qed.
+  Notation IFun := (@IFun name Fn Fn0 X Sc).
+  Notation IInv := (@IInv name Fn Fn0 X Sc).
+  Notation IX := (@IX name Fn Fn0 X Sc).
+  Notation IInit := (@IInit name Fn Fn0 X Sc).
+  Notation IStray := (@IStray name Fn Fn0 X Sc).
+  Notation flush := (@flush name Fn Fn0 X Sc).
+  Notation parse := (@parse name Fn Fn0 X Sc).
+  Notation items := (@items name Fn Fn0 X Sc).
+  Notation is_function := (@is_function name Fn Fn0 X Sc).
+  Notation names_ok := (@names_ok name has_comma).
+  Notation group_ok := (@group_ok name Fn has_comma arity).
+  Notation valid := (@valid name Fn Fn0 X Sc has_comma arity).
+  Notation defect := (@defect name Fn Fn0 X Sc has_comma arity).
 
-  Lemma fold_panic ops : fold_left step ops (SPanic) = SPanic.
-  Proof. induction ops as [|o ops IH]; [reflexivity|exact IH]. Qed.
+  (* ================= 4. errors are sticky ================= *)
+  Lemma fold_step_error : forall ops e, fold_left step ops (SError e) = SError e.
+  Proof. induction ops as [|o ops IH]; intros e; simpl; auto. Qed.
 
-  Theorem sticky ops1 ops2 s e :
-    fold_left step ops1 s = SError e ->
-    sb_build (fold_left step (ops1 ++ ops2) s) = Fail e.
-  Proof. intros H. rewrite fold_left_app, H, fold_error. reflexivity. Qed.
-End ModelBuilderP.
+  Theorem sticky : forall ops1 ops2 s e,
+      fold_left step ops1 s = SError e ->
+      sb_build (fold_left step (ops1 ++ ops2) s) = Fail e.
+  Proof.
+    intros ops1 ops2 s e H. rewrite fold_left_app, H, fold_step_error. reflexivity.
+  Qed.
+
+  (* ================= list helpers ================= *)
+  Lemma name_eqb_refl : forall a, name_eqb a a = true.
+  Proof. intros a. apply name_eqbP. reflexivity. Qed.
+
+  Lemma memP : forall n l, mem n l = true <-> In n l.
+  Proof.
+    intros n l. unfold ModelBuilder.mem. rewrite existsb_exists. split.
+    - intros [x [Hin Heq]]. apply name_eqbP in Heq. subst. exact Hin.
+    - intros Hin. exists n. split; [exact Hin|apply name_eqb_refl].
+  Qed.
+
+  Lemma mem_false : forall n l, mem n l = false <-> ~ In n l.
+  Proof.
+    intros n l. rewrite <- memP. destruct (mem n l); split; intros; congruence.
+  Qed.
+
+  Lemma uniqP : forall l, uniq l = true <-> NoDup l.
+  Proof.
+    induction l as [|x r IH]; simpl.
+    - split; intros; [constructor|reflexivity].
+    - rewrite andb_true_iff, negb_true_iff, mem_false, IH. split.
+      + intros [H1 H2]. constructor; assumption.
+      + intros H. inversion H; subst. split; assumption.
+  Qed.
+
+  Lemma position_nth : forall n l k, position n l = Some k -> nth_error l k = Some n.
+  Proof.
+    intros n. induction l as [|x r IH]; simpl; intros k H; [discriminate|].
+    destruct (name_eqb x n) eqn:E.
+    - apply name_eqbP in E. inversion H; subst. reflexivity.
+    - destruct (position n r) as [j|] eqn:Ep; simpl in H; [|discriminate].
+      inversion H; subst. simpl. apply IH. reflexivity.
+  Qed.
+
+  Lemma position_In : forall n l k, position n l = Some k -> In n l.
+  Proof. intros n l k H. apply position_nth in H. eapply nth_error_In; eauto. Qed.
+
+  Lemma position_None : forall n l, position n l = None -> ~ In n l.
+  Proof.
+    intros n. induction l as [|x r IH]; simpl; intros H; [tauto|].
+    destruct (name_eqb x n) eqn:E; [discriminate|].
+    destruct (position n r) eqn:Ep; simpl in H; [discriminate|].
+    intros [Hx|Hr].
+    - subst. rewrite name_eqb_refl in E. discriminate.
+    - exact (IH eq_refl Hr).
+  Qed.
+
+  Lemma position_some : forall n l, In n l -> exists k, position n l = Some k.
+  Proof.
+    intros n l Hin. destruct (position n l) as [k|] eqn:E; [eauto|].
+    exfalso. exact (position_None _ _ E Hin).
+  Qed.
+
+  Lemma position_inj : forall n n' l k,
+      position n l = Some k -> position n' l = Some k -> n = n'.
+  Proof.
+    intros n n' l k H1 H2. apply position_nth in H1. apply position_nth in H2. congruence.
+  Qed.
+
+  Lemma nth_position_NoDup : forall l k n,
+      NoDup l -> nth_error l k = Some n -> position n l = Some k.
+  Proof.
+    induction l as [|x r IH]; intros k n Hnd Hn.
+    - destruct k; discriminate.
+    - inversion Hnd as [|? ? Hx Hr]; subst. destruct k as [|k]; simpl in *.
+      + inversion Hn; subst. rewrite name_eqb_refl. reflexivity.
+      + destruct (name_eqb x n) eqn:E.
+        * apply name_eqbP in E. subst. exfalso. apply Hx. eapply nth_error_In; eauto.
+        * rewrite (IH k n Hr Hn). reflexivity.
+  Qed.
+
+  Lemma has_keyP : forall k (d : list (nat * wfn)), has_key k d = true <-> In k (map fst d).
+  Proof.
+    intros k d. unfold ModelBuilder.has_key. rewrite existsb_exists, in_map_iff. split.
+    - intros [p [Hin He]]. apply Nat.eqb_eq in He. eauto.
+    - intros [p [He Hin]]. exists p. split; [exact Hin|apply Nat.eqb_eq; exact He].
+  Qed.
+
+  (* ================= check_parameter_names ================= *)
+  Lemma find_none_all : forall (l : list name), find has_comma l = None ->
+      forall n, In n l -> has_comma n = false.
+  Proof. intros l H n Hin. exact (find_none _ _ H n Hin). Qed.
+
+  Lemma cpn_none : forall l, cpn l = None <-> names_ok l.
+  Proof.
+    intros l. unfold check_parameter_names, ModelBuilderSpec.names_ok. destruct l as [|a l'].
+    - split; [discriminate|]. intros [H _]. congruence.
+    - remember (a :: l') as l eqn:El. destruct (find has_comma l) as [c|] eqn:Ef.
+      + split; [discriminate|]. intros [_ [_ H]]. apply find_some in Ef. destruct Ef as [Hin Hc].
+        rewrite (H c Hin) in Hc. discriminate.
+      + destruct (uniq l) eqn:Eu.
+        * split; [|reflexivity]. intros _. split; [subst; discriminate|]. split.
+          -- apply uniqP. exact Eu.
+          -- apply find_none_all. exact Ef.
+        * split; [discriminate|]. intros [_ [Hnd _]]. apply uniqP in Hnd. congruence.
+  Qed.
+
+  Lemma cpn_some : forall l e, cpn l = Some e ->
+      (e = EmptyParameters /\ l = []) \/
+      (exists n, e = CommaInParameterNameNotAllowed n /\ In n l /\ has_comma n = true) \/
+      (e = DuplicateParameterNames l /\ ~ NoDup l).
+  Proof.
+    intros l e. unfold check_parameter_names. destruct l as [|a l'].
+    - intros H. inversion H. left. split; reflexivity.
+    - remember (a :: l') as l eqn:El. destruct (find has_comma l) as [c|] eqn:Ef.
+      + intros H. inversion H; subst e. right. left. apply find_some in Ef. exists c. tauto.
+      + destruct (uniq l) eqn:Eu; [discriminate|]. intros H. inversion H; subst e.
+        right. right. split; [reflexivity|]. intros Hnd. apply uniqP in Hnd. congruence.
+  Qed.
+
+  (* ================= create_index_mapping ================= *)
+  Definition P (names : list name) (k : nat) (n : name) : Prop := position n names = Some k.
+
+  Lemma cim_spec : forall full sub,
+      match cim full sub with
+      | inl e => exists s, e = FunctionParameterNotInModel s /\ In s sub /\ ~ In s full
+      | inr m => Forall2 (P full) m sub /\ incl sub full
+      end.
+  Proof.
+    intros full. induction sub as [|s r IH]; simpl.
+    - split; [constructor|]. intros x [].
+    - destruct (position s full) as [i|] eqn:Ep.
+      + destruct (cim full r) as [e|m].
+        * destruct IH as [s' [He [Hin Hn]]]. exists s'. tauto.
+        * destruct IH as [HF Hi]. split.
+          -- constructor; assumption.
+          -- intros x [Hx|Hx]; [subst; eapply position_In; eauto|auto].
+      + exists s. split; [reflexivity|]. split; [left; reflexivity|].
+        apply position_None. exact Ep.
+  Qed.
+
+  Lemma cim_ok : forall full sub, incl sub full ->
+      exists m, cim full sub = inr m /\ Forall2 (P full) m sub.
+  Proof.
+    intros full sub Hi. pose proof (cim_spec full sub) as H.
+    destruct (cim full sub) as [e|m].
+    - destruct H as [s [_ [Hin Hn]]]. exfalso. apply Hn. apply Hi. exact Hin.
+    - exists m. tauto.
+  Qed.
+
+  (* ================= deriv_index ================= *)
+  Lemma deriv_index_eq : forall fps n l i,
+      deriv_index l fps n i =
+      if mem n fps then option_map (plus i) (position n l) else None.
+  Proof.
+    intros fps n. induction l as [|mp r IH]; intros i; simpl.
+    - destruct (mem n fps); reflexivity.
+    - destruct (name_eqb mp n) eqn:E.
+      + apply name_eqbP in E. subst mp. destruct (mem n fps) eqn:Em; simpl.
+        * f_equal. lia.
+        * apply IH.
+      + rewrite andb_false_r, IH. destruct (mem n fps); [|reflexivity].
+        destruct (position n r); simpl; [f_equal; lia|reflexivity].
+  Qed.
+
+  Lemma deriv_index_some : forall names fps n idx,
+      deriv_index names fps n 0 = Some idx -> In n fps /\ position n names = Some idx.
+  Proof.
+    intros names fps n idx. rewrite deriv_index_eq. destruct (mem n fps) eqn:Em; [|discriminate].
+    apply memP in Em. destruct (position n names); simpl; intros H; inversion H. tauto.
+  Qed.
+
+  Lemma deriv_index_none : forall names fps n,
+      deriv_index names fps n 0 = None -> ~ (In n fps /\ In n names).
+  Proof.
+    intros names fps n. rewrite deriv_index_eq. destruct (mem n fps) eqn:Em.
+    - destruct (position n names) eqn:Ep; simpl; [discriminate|]. intros _ [_ H].
+      exact (position_None _ _ Ep H).
+    - intros _ [H _]. apply mem_false in Em. tauto.
+  Qed.
+
+  (* ================= the specification over an explicit item list ================= *)
+  Definition validL (names : list name) (its : list item) : Prop :=
+    names_ok names /\
+    (forall n d, ~ In (IStray n d) its) /\
+    (forall fps f ds, In (IFun fps f ds) its -> group_ok names fps f ds) /\
+    (exists i, In i its /\ is_function i) /\
+    (forall n, In n names -> exists fps f ds, In (IFun fps f ds) its /\ In n fps) /\
+    (exists x, In (IX x) its) /\
+    (exists l, In (IInit l) its) /\
+    (forall l, In (IInit l) its -> length l = length names).
+
+  Definition defectL (names : list name) (its : list item) (e : mberr) : Prop :=
+    match e with
+    | EmptyParameters =>
+        names = [] \/ exists f ds, In (IFun [] f ds) its
+    | CommaInParameterNameNotAllowed n =>
+        has_comma n = true /\
+        (In n names \/ exists fps f ds, In (IFun fps f ds) its /\ In n fps)
+    | DuplicateParameterNames l =>
+        ~ NoDup l /\ (l = names \/ exists f ds, In (IFun l f ds) its)
+    | FunctionParameterNotInModel n =>
+        exists fps f ds, In (IFun fps f ds) its /\ In n fps /\ ~ In n names
+    | InvalidDerivative n fps =>
+        exists f ds, In (IFun fps f ds) its /\ In n (map fst ds) /\
+                     ~ (In n fps /\ In n names)
+    | DuplicateDerivative n =>
+        exists fps f ds, In (IFun fps f ds) its /\
+          exists ds1 d1 ds2 d2 ds3, ds = ds1 ++ (n, d1) :: ds2 ++ (n, d2) :: ds3
+    | MissingDerivative n fps =>
+        exists f ds, In (IFun fps f ds) its /\ In n fps /\ ~ In n (map fst ds)
+    | EmptyModel => forall i, In i its -> ~ is_function i
+    | UnusedParameter n =>
+        In n names /\ forall fps f ds, In (IFun fps f ds) its -> ~ In n fps
+    | IncorrectParameterCount actual expected =>
+        actual <> expected /\
+        ((exists fps f ds, In (IFun fps f ds) its /\ actual = length fps /\
+                           (expected = arity f \/ exists n d, In (n, d) ds /\ expected = arity d)) \/
+         (exists l, In (IInit l) its /\ actual = length l /\ expected = length names))
+    | MissingX => forall x, ~ In (IX x) its
+    | MissingInitialParameters => forall l, ~ In (IInit l) its
+    | IllegalCallToPartialDeriv => exists n d, In (IStray n d) its
+    end.
+
+  Lemma valid_validL : forall names ops, valid names ops = validL names (items ops).
+  Proof. reflexivity. Qed.
+
+  Lemma defect_defectL : forall names ops e, defect names ops e = defectL names (items ops) e.
+  Proof. intros names ops e. destruct e; reflexivity. Qed.
+
+  (* a defect excludes validity *)
+  Lemma defect_not_valid : forall names its e, defectL names its e -> ~ validL names its.
+  Proof.
+    intros names its e Hd (Hn & Hs & Hg & Hf & Hu & Hx & Hi & Hl).
+    destruct Hn as (Hne & Hnd & Hc).
+    destruct e; simpl in Hd.
+    - (* DuplicateParameterNames *)
+      destruct Hd as [Hd [->|(f & ds & Hin)]]; [tauto|].
+      apply Hg in Hin. destruct Hin as ((_ & Hnd' & _) & _). tauto.
+    - (* EmptyParameters *)
+      destruct Hd as [->|(f & ds & Hin)]; [tauto|].
+      apply Hg in Hin. destruct Hin as ((Hne' & _) & _). tauto.
+    - (* FunctionParameterNotInModel *)
+      destruct Hd as (fps & f & ds & Hin & Hn & Hnn).
+      apply Hg in Hin. destruct Hin as (_ & Hincl & _). apply Hnn, Hincl, Hn.
+    - (* InvalidDerivative *)
+      destruct Hd as (f & ds & Hin & Hn & Hnn).
+      apply Hg in Hin. destruct Hin as (_ & Hincl & _ & _ & Hiff & _).
+      apply Hnn. apply Hiff in Hn. split; [exact Hn|apply Hincl, Hn].
+    - (* DuplicateDerivative *)
+      destruct Hd as (fps & f & ds & Hin & ds1 & d1 & ds2 & d2 & ds3 & ->).
+      apply Hg in Hin. destruct Hin as (_ & _ & _ & Hndd & _).
+      rewrite map_app in Hndd. simpl in Hndd. apply NoDup_remove_2 in Hndd.
+      apply Hndd. rewrite in_app_iff. right. rewrite map_app. rewrite in_app_iff. right.
+      simpl. left. reflexivity.
+    - (* MissingDerivative *)
+      destruct Hd as (f & ds & Hin & Hn & Hnn).
+      apply Hg in Hin. destruct Hin as (_ & _ & _ & _ & Hiff & _). apply Hnn, Hiff, Hn.
+    - (* EmptyModel *)
+      destruct Hf as (i & Hin & Hfi). exact (Hd i Hin Hfi).
+    - (* UnusedParameter *)
+      destruct Hd as (Hn & Hnone). destruct (Hu _ Hn) as (fps & f & ds & Hin & Hnf).
+      exact (Hnone _ _ _ Hin Hnf).
+    - (* IncorrectParameterCount *)
+      destruct Hd as (Hne' & [(fps & f & ds & Hin & Ha & He)|(l & Hin & Ha & He)]).
+      + apply Hg in Hin. destruct Hin as (_ & _ & Har & _ & _ & Hard).
+        destruct He as [He|(n & d & Hind & He)].
+        * congruence.
+        * apply Hard in Hind. congruence.
+      + apply Hl in Hin. congruence.
+    - (* Comma *)
+      destruct Hd as (Hcn & [Hn|(fps & f & ds & Hin & Hn)]).
+      + rewrite (Hc _ Hn) in Hcn. discriminate.
+      + apply Hg in Hin. destruct Hin as ((_ & _ & Hc') & _).
+        rewrite (Hc' _ Hn) in Hcn. discriminate.
+    - (* MissingX *) destruct Hx as (x & Hin). exact (Hd _ Hin).
+    - (* MissingInit *) destruct Hi as (l & Hin). exact (Hd _ Hin).
+    - (* Illegal *) destruct Hd as (n & d & Hin). exact (Hs _ _ Hin).
+  Qed.
+
+  (* ================= parse in accumulator form ================= *)
+  Definition pnormal (done : list item) (o : mop) : list item * option group :=
+    match o with
+    | OFunction fps f => (done, Some (fps, f, []))
+    | OPartialDeriv n d => (done ++ [IStray n d], None)
+    | OInvariant f => (done ++ [IInv f], None)
+    | OIndepVar x => (done ++ [IX x], None)
+    | OInitParams l => (done ++ [IInit l], None)
+    end.
+
+  Definition pstep (done : list item) (cur : option group) (o : mop) : list item * option group :=
+    match cur, o with
+    | Some (fps, f, ds), OPartialDeriv n d => (done, Some (fps, f, ds ++ [(n, d)]))
+    | _, _ => pnormal (done ++ flush cur) o
+    end.
+
+  Lemma parse_cons : forall o ops done cur,
+      done ++ parse (o :: ops) cur =
+      fst (pstep done cur o) ++ parse ops (snd (pstep done cur o)).
+  Proof.
+    intros o ops done cur. destruct cur as [[[fps f] ds]|]; destruct o; simpl;
+      repeat rewrite <- app_assoc; simpl; try rewrite app_nil_r; reflexivity.
+  Qed.
+
+  Lemma pnormal_incl : forall done o, incl done (fst (pnormal done o)).
+  Proof. intros done o. destruct o; simpl; try apply incl_refl; apply incl_appl, incl_refl. Qed.
+
+  Lemma pstep_nonderiv : forall done cur o,
+      (forall n d, o <> OPartialDeriv n d) ->
+      pstep done cur o = pnormal (done ++ flush cur) o.
+  Proof.
+    intros done cur o Ho. destruct cur as [[[fps f] ds]|]; destruct o; try reflexivity.
+    exfalso. eapply Ho. reflexivity.
+  Qed.
+
+  (* ================= invariants ================= *)
+  Set Implicit Arguments.
+  (* an error state: the defect is witnessed by the completed items and stays when items are added *)
+  Definition SErr (names : list name) (done : list item) (e : mberr) : Prop :=
+    forall its, incl done its -> defectL names its e.
+
+  (* an error inside the pending group: stays however the group is continued *)
+  Definition FErr (names fps : list name) (f : Fn) (ds : list (name * Fn)) (e : mberr) : Prop :=
+    forall ds' its, In (IFun fps f (ds ++ ds')) its -> defectL names its e.
+
+  Definition FOk (names fps : list name) (f : Fn) (ds : list (name * Fn)) (mf : mfun) : Prop :=
+    names_ok fps /\ incl fps names /\ arity f = length fps /\ NoDup (map fst ds) /\
+    (forall n, In n (map fst ds) -> In n fps) /\
+    (forall n d, In (n, d) ds -> arity d = length fps) /\
+    Forall2 (P names) (map fst (f_derivs mf)) (map fst ds).
+
+  Record FInv (names fps : list name) (f : Fn) (ds : list (name * Fn)) (fb : fbuilder) : Prop := {
+    fi_mp : fb_model_params fb = names;
+    fi_fp : fb_fparams fb = fps;
+    fi_res : match fb_result fb with
+             | inl e => FErr names fps f ds e
+             | inr mf => FOk names fps f ds mf
+             end }.
+
+  Record NInv (names : list name) (done : list item) (m : unfinished) : Prop := {
+    ni_names_ok : names_ok names;
+    ni_names : u_names m = names;
+    ni_nostray : forall n d, ~ In (IStray n d) done;
+    ni_groups : forall fps f ds, In (IFun fps f ds) done -> group_ok names fps f ds;
+    ni_inits : forall l, In (IInit l) done -> length l = length names;
+    ni_nonempty : u_funs m = [] <-> (forall i, In i done -> ~ is_function i);
+    ni_keys : forall k,
+        existsb (fun mf : mfun => has_key k (f_derivs mf)) (u_funs m) = true <->
+        exists fps f ds n, In (IFun fps f ds) done /\ In n fps /\ position n names = Some k;
+    ni_x : match u_x m with
+           | None => forall x, ~ In (IX x) done
+           | Some _ => exists x, In (IX x) done
+           end;
+    ni_init : match u_init m with
+              | None => forall l, ~ In (IInit l) done
+              | Some _ => exists l, In (IInit l) done
+              end }.
+
+  Definition Inv (names : list name) (done : list item) (cur : option group) (s : sbuilder) : Prop :=
+    match s with
+    | SPanic => False
+    | SError e => SErr names done e
+    | SNormal m => cur = None /\ NInv names done m
+    | SFunctionBuilding m fb =>
+        exists fps f ds, cur = Some (fps, f, ds) /\ NInv names done m /\ FInv names fps f ds fb
+    end.
+
+  Lemma SErr_incl : forall names done done' e,
+      incl done done' -> SErr names done e -> SErr names done' e.
+  Proof. intros names done done' e Hi H its Hi'. apply H. eapply incl_tran; eauto. Qed.
+
+  Lemma in_snoc : forall (A : Type) (l : list A) (a x : A), In x (l ++ [a]) <-> In x l \/ x = a.
+  Proof. intros A l a x. rewrite in_app_iff. simpl. intuition. Qed.
+
+  (* ---------- extending the completed items ---------- *)
+  Lemma NInv_push : forall names done m it mf,
+      NInv names done m ->
+      is_function it ->
+      (forall fps f ds, it = IFun fps f ds -> group_ok names fps f ds) ->
+      (forall k, has_key k (f_derivs mf) = true <->
+                 exists fps f ds n, it = IFun fps f ds /\ In n fps /\ position n names = Some k) ->
+      NInv names (done ++ [it]) (push_fun m mf).
+  Proof.
+    intros names done m it mf [Hno Hn Hs Hg Hi Hne Hk Hx Hin] Hf Hgo Hkeys.
+    constructor; simpl; try assumption.
+    - intros n d H. apply in_snoc in H. destruct H as [H|H]; [exact (Hs _ _ H)|].
+      subst it. exact Hf.
+    - intros fps f ds H. apply in_snoc in H. destruct H as [H|H]; [exact (Hg _ _ _ H)|].
+      apply Hgo. symmetry. exact H.
+    - intros l H. apply in_snoc in H. destruct H as [H|H]; [exact (Hi _ H)|].
+      subst it. destruct Hf.
+    - split.
+      + intros H. apply app_eq_nil in H. destruct H as [_ H]. discriminate.
+      + intros H. exfalso. apply (H it); [apply in_snoc; right; reflexivity|exact Hf].
+    - intros k. rewrite existsb_app, orb_true_iff. simpl. rewrite orb_false_r. split.
+      + intros [H|H].
+        * apply Hk in H. destruct H as (fps & f & ds & n & H1 & H2 & H3).
+          exists fps, f, ds, n. split; [apply in_snoc; left; exact H1|tauto].
+        * apply Hkeys in H. destruct H as (fps & f & ds & n & H1 & H2 & H3).
+          exists fps, f, ds, n. split; [apply in_snoc; right; symmetry; exact H1|tauto].
+      + intros (fps & f & ds & n & H1 & H2 & H3). apply in_snoc in H1. destruct H1 as [H1|H1].
+        * left. apply Hk. exists fps, f, ds, n. tauto.
+        * right. apply Hkeys. exists fps, f, ds, n. split; [symmetry; exact H1|tauto].
+    - destruct (u_x m) as [x0|].
+      + destruct Hx as [x1 Hx]. exists x1. apply in_snoc. left. exact Hx.
+      + intros x1 H. apply in_snoc in H. destruct H as [H|H]; [exact (Hx _ H)|].
+        subst it. destruct Hf.
+    - destruct (u_init m) as [l0|].
+      + destruct Hin as [l1 Hl]. exists l1. apply in_snoc. left. exact Hl.
+      + intros l1 H. apply in_snoc in H. destruct H as [H|H]; [exact (Hin _ H)|].
+        subst it. destruct Hf.
+  Qed.
+
+  Lemma NInv_x : forall names done m x,
+      NInv names done m ->
+      NInv names (done ++ [IX x])
+           {| u_names := u_names m; u_funs := u_funs m; u_x := Some x; u_init := u_init m |}.
+  Proof.
+    intros names done m x [Hno Hn Hs Hg Hi Hne Hk Hx Hin].
+    constructor; simpl; try assumption.
+    - intros n d H. apply in_snoc in H. destruct H as [H|H]; [exact (Hs _ _ H)|discriminate].
+    - intros fps f ds H. apply in_snoc in H. destruct H as [H|H]; [exact (Hg _ _ _ H)|discriminate].
+    - intros l H. apply in_snoc in H. destruct H as [H|H]; [exact (Hi _ H)|discriminate].
+    - rewrite Hne. split.
+      + intros H i Hi'. apply in_snoc in Hi'. destruct Hi' as [Hi'|Hi']; [exact (H _ Hi')|].
+        subst i. simpl. tauto.
+      + intros H i Hi'. apply H. apply in_snoc. left. exact Hi'.
+    - intros k. rewrite Hk. split.
+      + intros (fps & f & ds & n & H1 & H2). exists fps, f, ds, n.
+        split; [apply in_snoc; left; exact H1|exact H2].
+      + intros (fps & f & ds & n & H1 & H2). apply in_snoc in H1.
+        destruct H1 as [H1|H1]; [|discriminate]. exists fps, f, ds, n. tauto.
+    - exists x. apply in_snoc. right. reflexivity.
+    - destruct (u_init m) as [l0|].
+      + destruct Hin as [l1 Hl]. exists l1. apply in_snoc. left. exact Hl.
+      + intros l1 H. apply in_snoc in H. destruct H as [H|H]; [exact (Hin _ H)|discriminate].
+  Qed.
+
+  Lemma NInv_init : forall names done m l,
+      NInv names done m -> length l = length names ->
+      NInv names (done ++ [IInit l])
+           {| u_names := u_names m; u_funs := u_funs m; u_x := u_x m; u_init := Some l |}.
+  Proof.
+    intros names done m l [Hno Hn Hs Hg Hi Hne Hk Hx Hin] Hlen.
+    constructor; simpl; try assumption.
+    - intros n d H. apply in_snoc in H. destruct H as [H|H]; [exact (Hs _ _ H)|discriminate].
+    - intros fps f ds H. apply in_snoc in H. destruct H as [H|H]; [exact (Hg _ _ _ H)|discriminate].
+    - intros l' H. apply in_snoc in H. destruct H as [H|H]; [exact (Hi _ H)|].
+      inversion H; subst. exact Hlen.
+    - rewrite Hne. split.
+      + intros H i Hi'. apply in_snoc in Hi'. destruct Hi' as [Hi'|Hi']; [exact (H _ Hi')|].
+        subst i. simpl. tauto.
+      + intros H i Hi'. apply H. apply in_snoc. left. exact Hi'.
+    - intros k. rewrite Hk. split.
+      + intros (fps & f & ds & n & H1 & H2). exists fps, f, ds, n.
+        split; [apply in_snoc; left; exact H1|exact H2].
+      + intros (fps & f & ds & n & H1 & H2). apply in_snoc in H1.
+        destruct H1 as [H1|H1]; [|discriminate]. exists fps, f, ds, n. tauto.
+    - destruct (u_x m) as [x0|].
+      + destruct Hx as [x1 Hx]. exists x1. apply in_snoc. left. exact Hx.
+      + intros x1 H. apply in_snoc in H. destruct H as [H|H]; [exact (Hx _ H)|discriminate].
+    - exists l. apply in_snoc. right. reflexivity.
+  Qed.
+
+  (* ================= more list helpers ================= *)
+  Lemma Forall2_In_l : forall (A B : Type) (R : A -> B -> Prop) l1 l2 a,
+      Forall2 R l1 l2 -> In a l1 -> exists b, In b l2 /\ R a b.
+  Proof.
+    intros A B R l1 l2 a HF. induction HF as [|x y l l' Hxy HF IH]; intros Hin; [destruct Hin|].
+    destruct Hin as [->|Hin].
+    - exists y. split; [left; reflexivity|exact Hxy].
+    - destruct (IH Hin) as (b & Hb & HR). exists b. split; [right; exact Hb|exact HR].
+  Qed.
+
+  Lemma Forall2_In_r : forall (A B : Type) (R : A -> B -> Prop) l1 l2 b,
+      Forall2 R l1 l2 -> In b l2 -> exists a, In a l1 /\ R a b.
+  Proof.
+    intros A B R l1 l2 b HF. induction HF as [|x y l l' Hxy HF IH]; intros Hin; [destruct Hin|].
+    destruct Hin as [->|Hin].
+    - exists x. split; [left; reflexivity|exact Hxy].
+    - destruct (IH Hin) as (a & Ha & HR). exists a. split; [right; exact Ha|exact HR].
+  Qed.
+
+  Lemma Forall2_len : forall (A B : Type) (R : A -> B -> Prop) l1 l2,
+      Forall2 R l1 l2 -> length l1 = length l2.
+  Proof. intros A B R l1 l2 HF. induction HF; simpl; congruence. Qed.
+
+  Arguments Forall2_In_l [A B R l1 l2 a] _ _.
+  Arguments Forall2_In_r [A B R l1 l2 b] _ _.
+
+  Lemma NoDup_snoc : forall (A : Type) (l : list A) (a : A),
+      NoDup l -> ~ In a l -> NoDup (l ++ [a]).
+  Proof.
+    intros A l a. induction l as [|x r IH]; intros Hnd Hn; simpl.
+    - constructor; [intros []|constructor].
+    - inversion Hnd as [|? ? Hx Hr]; subst. constructor.
+      + intros H. apply in_snoc in H. destruct H as [H|H]; [tauto|]. subst. apply Hn. left. reflexivity.
+      + apply IH; [exact Hr|]. intros H. apply Hn. right. exact H.
+  Qed.
+
+  Lemma first_unused_some : forall (funs : list mfun) l i n,
+      first_unused l i funs = Some n ->
+      exists k, nth_error l k = Some n /\
+                existsb (fun mf : mfun => has_key (i + k) (f_derivs mf)) funs = false.
+  Proof.
+    intros funs. induction l as [|x r IH]; simpl; intros i n H; [discriminate|].
+    destruct (existsb (fun f : mfun => has_key i (f_derivs f)) funs) eqn:E.
+    - apply IH in H. destruct H as (k & H1 & H2). exists (S k). split; [exact H1|].
+      replace (i + S k) with (S i + k) by lia. exact H2.
+    - inversion H; subst. exists 0. rewrite Nat.add_0_r. split; [reflexivity|exact E].
+  Qed.
+
+  Lemma first_unused_none : forall (funs : list mfun) l i,
+      first_unused l i funs = None ->
+      forall k n, nth_error l k = Some n ->
+                  existsb (fun mf : mfun => has_key (i + k) (f_derivs mf)) funs = true.
+  Proof.
+    intros funs. induction l as [|x r IH]; simpl; intros i H k n Hn.
+    - destruct k; discriminate.
+    - destruct (existsb (fun f : mfun => has_key i (f_derivs f)) funs) eqn:E; [|discriminate].
+      destruct k as [|k]; simpl in Hn.
+      + rewrite Nat.add_0_r. exact E.
+      + replace (i + S k) with (S i + k) by lia. eapply IH; eauto.
+  Qed.
+
+  Lemma first_missing_some : forall names (d : list (nat * wfn)) mapping fps p,
+      Forall2 (P names) mapping fps ->
+      first_missing mapping fps d = Some p ->
+      exists k, In p fps /\ P names k p /\ has_key k d = false.
+  Proof.
+    intros names d mapping fps p HF. induction HF as [|x y l l' Hxy HF IH]; simpl; intros H.
+    - discriminate.
+    - destruct (has_key x d) eqn:E.
+      + destruct (IH H) as (k & H1 & H2 & H3). exists k. tauto.
+      + inversion H; subst. exists x. tauto.
+  Qed.
+
+  Lemma first_missing_none : forall names (d : list (nat * wfn)) mapping fps,
+      Forall2 (P names) mapping fps ->
+      first_missing mapping fps d = None ->
+      forall p, In p fps -> exists k, P names k p /\ has_key k d = true.
+  Proof.
+    intros names d mapping fps HF. induction HF as [|x y l l' Hxy HF IH]; simpl; intros H p Hin.
+    - destruct Hin.
+    - destruct (has_key x d) eqn:E; [|discriminate].
+      destruct Hin as [->|Hin]; [exists x; tauto|auto].
+  Qed.
+
+  (* ================= the function builder ================= *)
+  Lemma create_wrapped_spec : forall names fps g,
+      names_ok names ->
+      match create_wrapped names fps g with
+      | inl e =>
+          cpn fps = Some e \/
+          (names_ok fps /\ e = IncorrectParameterCount (length fps) (arity g) /\
+           length fps <> arity g) \/
+          (names_ok fps /\ length fps = arity g /\
+           exists s, e = FunctionParameterNotInModel s /\ In s fps /\ ~ In s names)
+      | inr w => names_ok fps /\ length fps = arity g /\ incl fps names
+      end.
+  Proof.
+    intros names fps g Hno. unfold ModelBuilder.create_wrapped.
+    rewrite (proj2 (cpn_none names) Hno).
+    destruct (cpn fps) as [e|] eqn:E; [left; reflexivity|].
+    apply cpn_none in E.
+    destruct (length fps =? arity g) eqn:Ea.
+    - apply Nat.eqb_eq in Ea. pose proof (cim_spec names fps) as Hc.
+      destruct (cim names fps) as [e|mp].
+      + right. right. tauto.
+      + tauto.
+    - apply Nat.eqb_neq in Ea. right. left. tauto.
+  Qed.
+
+  Lemma cpn_FErr : forall names fps f ds e, cpn fps = Some e -> FErr names fps f ds e.
+  Proof.
+    intros names fps f ds e H ds' its Hin.
+    destruct (cpn_some _ _ H) as [[-> ->]|[(n & -> & Hn & Hc)|[-> Hnd]]]; simpl.
+    - right. eauto.
+    - split; [exact Hc|]. right. eauto.
+    - split; [exact Hnd|]. right. eauto.
+  Qed.
+
+  Lemma fb_new_inv : forall names fps f,
+      names_ok names -> FInv names fps f [] (fb_new names fps f).
+  Proof.
+    intros names fps f Hno. unfold ModelBuilder.fb_new.
+    destruct (cpn fps) as [e|] eqn:E.
+    - constructor; simpl; try reflexivity. apply cpn_FErr. exact E.
+    - constructor; simpl; try reflexivity.
+      pose proof (create_wrapped_spec fps f Hno) as Hcw.
+      destruct (create_wrapped names fps f) as [e|w].
+      + destruct Hcw as [Hcw|[(Hfo & -> & Hne)|(Hfo & Hlen & s & -> & Hs & Hns)]].
+        * congruence.
+        * intros ds' its Hin. simpl. split; [exact Hne|]. left.
+          exists fps, f, ([] ++ ds'). split; [exact Hin|]. split; [reflexivity|]. left. reflexivity.
+        * intros ds' its Hin. simpl. exists fps, f, ([] ++ ds'). tauto.
+      + destruct Hcw as (Hfo & Hlen & Hincl). unfold FOk. simpl.
+        split; [exact Hfo|]. split; [exact Hincl|]. split; [symmetry; exact Hlen|].
+        split; [constructor|]. split; [intros n []|]. split; [intros n d []|constructor].
+  Qed.
+
+  Lemma FErr_grow : forall names fps f ds ds1 e,
+      FErr names fps f ds e -> FErr names fps f (ds ++ ds1) e.
+  Proof.
+    intros names fps f ds ds1 e H ds' its Hin. rewrite <- app_assoc in Hin. exact (H _ _ Hin).
+  Qed.
+
+  Lemma fb_pd_inv : forall names fps f ds fb n d,
+      names_ok names ->
+      FInv names fps f ds fb ->
+      FInv names fps f (ds ++ [(n, d)]) (fb_partial_deriv fb n d).
+  Proof.
+    intros names fps f ds fb n d Hno [Hmp Hfp Hres]. unfold ModelBuilder.fb_partial_deriv.
+    rewrite Hmp, Hfp.
+    destruct (deriv_index names fps n 0) as [idx|] eqn:Edi.
+    - apply deriv_index_some in Edi. destruct Edi as [Hnf Hpos].
+      destruct (fb_result fb) as [e|mf] eqn:Er.
+      + constructor; try assumption. rewrite Er. apply FErr_grow. exact Hres.
+      + destruct Hres as (Hfo & Hincl & Har & Hnd & Hsub & Hard & HF2).
+        pose proof (create_wrapped_spec fps d Hno) as Hcw.
+        destruct (create_wrapped names fps d) as [e|w].
+        * constructor; simpl; try reflexivity.
+          destruct Hcw as [Hcw|[(_ & -> & Hne)|(_ & _ & s & -> & Hs & Hns)]].
+          -- apply cpn_none in Hfo. congruence.
+          -- intros ds' its Hin. simpl. split; [exact Hne|]. left.
+             exists fps, f, ((ds ++ [(n, d)]) ++ ds'). split; [exact Hin|].
+             split; [reflexivity|]. right. exists n, d. split; [|reflexivity].
+             rewrite !in_app_iff. left. right. left. reflexivity.
+          -- exfalso. apply Hns, Hincl, Hs.
+        * destruct Hcw as (_ & Hlen & _).
+          constructor; simpl; try reflexivity.
+          destruct (has_key idx (f_derivs mf)) eqn:Ehk.
+          -- apply has_keyP in Ehk.
+             destruct (Forall2_In_l HF2 Ehk) as (n' & Hn' & HP). unfold P in HP.
+             assert (n' = n) by (eapply position_inj; eauto). subst n'.
+             apply in_map_iff in Hn'. destruct Hn' as ([n1 d1] & Hfst & Hin1). simpl in Hfst. subst n1.
+             apply in_split in Hin1. destruct Hin1 as (ds1 & ds2 & ->).
+             intros ds' its Hin. simpl. exists fps, f, (((ds1 ++ (n, d1) :: ds2) ++ [(n, d)]) ++ ds').
+             split; [exact Hin|]. exists ds1, d1, ds2, d, ds'.
+             rewrite <- !app_assoc. simpl. reflexivity.
+          -- assert (Hnin : ~ In n (map fst ds)).
+             { intros Hin. destruct (Forall2_In_r HF2 Hin) as (k & Hk & HP). unfold P in HP.
+               assert (k = idx) by congruence. subst k.
+               apply has_keyP in Hk. congruence. }
+             unfold FOk. simpl. split; [exact Hfo|]. split; [exact Hincl|]. split; [exact Har|].
+             split; [|split; [|split]].
+             ++ rewrite map_app. simpl. apply NoDup_snoc; assumption.
+             ++ intros n0. rewrite map_app. simpl. intros H. apply in_snoc in H.
+                destruct H as [H|H]; [auto|subst; exact Hnf].
+             ++ intros n0 d0 H. apply in_snoc in H. destruct H as [H|H]; [eauto|].
+                inversion H; subst. symmetry. exact Hlen.
+             ++ rewrite !map_app. apply Forall2_app; [exact HF2|]. simpl.
+                constructor; [exact Hpos|constructor].
+    - constructor; simpl; try reflexivity.
+      intros ds' its Hin. simpl. exists f, ((ds ++ [(n, d)]) ++ ds'). split; [exact Hin|]. split.
+      + rewrite !map_app, !in_app_iff. left. right. left. reflexivity.
+      + apply deriv_index_none. exact Edi.
+  Qed.
+
+  Lemma finalize_spec : forall names done m fps f ds fb,
+      NInv names done m ->
+      FInv names fps f ds fb ->
+      match finalize m fb with
+      | SError e => SErr names (done ++ [IFun fps f ds]) e
+      | SNormal m' => NInv names (done ++ [IFun fps f ds]) m'
+      | _ => False
+      end.
+  Proof.
+    intros names done m fps f ds fb HN [Hmp Hfp Hres].
+    pose proof (ni_names_ok HN) as Hno.
+    unfold ModelBuilder.finalize, ModelBuilder.fb_build, ModelBuilder.check_completion.
+    rewrite Hmp, Hfp.
+    destruct (fb_result fb) as [e|mf].
+    - simpl. intros its Hi. apply (Hres [] its). rewrite app_nil_r. apply Hi.
+      apply in_snoc. right. reflexivity.
+    - destruct Hres as (Hfo & Hincl & Har & Hnd & Hsub & Hard & HF2).
+      rewrite (proj2 (cpn_none names) Hno), (proj2 (cpn_none fps) Hfo).
+      destruct (cim_ok _ _ Hincl) as [mapping [Ec HFm]]. rewrite Ec.
+      destruct (first_missing mapping fps (f_derivs mf)) as [p|] eqn:Efm.
+      + destruct (first_missing_some _ HFm Efm) as (k & Hp & HPk & Hk).
+        intros its Hi. simpl. exists f, ds. split; [apply Hi, in_snoc; right; reflexivity|].
+        split; [exact Hp|]. intros Hin.
+        destruct (Forall2_In_r HF2 Hin) as (k' & Hk' & HP'). unfold P in *.
+        assert (k' = k) by congruence. subst k'. apply has_keyP in Hk'. congruence.
+      + pose proof (first_missing_none _ HFm Efm) as Hall0.
+        assert (Hall : forall p, In p fps -> In p (map fst ds)).
+        { intros p Hp. destruct (Hall0 p Hp) as (k & HPk & Hk). apply has_keyP in Hk.
+          destruct (Forall2_In_l HF2 Hk) as (n & Hn & HPn). unfold P in *.
+          assert (n = p) by (eapply position_inj; eauto). subst n. exact Hn. }
+        assert (Hlen : length mapping = length (f_derivs mf)).
+        { rewrite (Forall2_len HFm). rewrite <- (map_length fst (f_derivs mf)).
+          rewrite (Forall2_len HF2). destruct Hfo as (_ & Hndf & _).
+          apply Nat.le_antisymm; apply NoDup_incl_length; assumption. }
+        rewrite Hlen, Nat.eqb_refl. simpl.
+        apply NInv_push; try assumption.
+        * exact I.
+        * intros fps' f' ds' Heq. inversion Heq; subst. unfold ModelBuilderSpec.group_ok.
+          split; [exact Hfo|]. split; [exact Hincl|]. split; [exact Har|]. split; [exact Hnd|].
+          split; [intros n; split; auto|exact Hard].
+        * intros k. split.
+          -- intros Hk. apply has_keyP in Hk.
+             destruct (Forall2_In_l HF2 Hk) as (n & Hn & HPn).
+             exists fps, f, ds, n. split; [reflexivity|]. split; [auto|exact HPn].
+          -- intros (fps' & f' & ds' & n & Heq & Hn & Hpos). inversion Heq; subst.
+             apply Hall in Hn. destruct (Forall2_In_r HF2 Hn) as (k' & Hk' & HP'). unfold P in HP'.
+             assert (k' = k) by congruence. subst k'. apply has_keyP. exact Hk'.
+  Qed.
+
+  (* ================= one step ================= *)
+  Lemma step_normal_inv : forall names done m o,
+      NInv names done m ->
+      Inv names (fst (pnormal done o)) (snd (pnormal done o)) (step_normal m o).
+  Proof.
+    intros names done m o HN. pose proof (ni_names_ok HN) as Hno. pose proof (ni_names HN) as Hn.
+    destruct o as [fps f|n d|f0|x|l]; simpl.
+    - exists fps, f, []. split; [reflexivity|]. split; [exact HN|]. rewrite Hn.
+      apply fb_new_inv. exact Hno.
+    - intros its Hi. simpl. exists n, d. apply Hi, in_snoc. right. reflexivity.
+    - split; [reflexivity|]. apply NInv_push; try assumption.
+      + exact I.
+      + intros fps f ds H. discriminate.
+      + intros k. simpl. split; [discriminate|]. intros (fps & f & ds & n & H & _). discriminate.
+    - split; [reflexivity|]. apply NInv_x. exact HN.
+    - destruct (length (u_names m) =? length l) eqn:E.
+      + apply Nat.eqb_eq in E. rewrite Hn in E. split; [reflexivity|].
+        apply NInv_init; [exact HN|]. symmetry. exact E.
+      + apply Nat.eqb_neq in E. rewrite Hn in *. intros its Hi. simpl. split; [congruence|]. right.
+        exists l. split; [apply Hi, in_snoc; right; reflexivity|]. split; reflexivity.
+  Qed.
+
+  Lemma pstep_none : forall done o, pstep done None o = pnormal done o.
+  Proof. intros done o. unfold pstep. simpl. rewrite app_nil_r. reflexivity. Qed.
+
+  Lemma pstep_incl : forall done cur o, incl done (fst (pstep done cur o)).
+  Proof.
+    intros done cur o. destruct cur as [[[fps f] ds]|].
+    - destruct o; simpl; try apply incl_refl;
+        try (apply incl_appl, incl_appl, incl_refl); apply incl_appl, incl_refl.
+    - rewrite pstep_none. apply pnormal_incl.
+  Qed.
+
+  Lemma step_fb_nonderiv : forall m fb o,
+      (forall n d, o <> OPartialDeriv n d) ->
+      step (SFunctionBuilding m fb) o =
+      match finalize m fb with SNormal m' => step_normal m' o | s' => s' end.
+  Proof. intros m fb o Ho. destruct o; try reflexivity. exfalso. eapply Ho. reflexivity. Qed.
+
+  Lemma step_inv : forall names done cur s o,
+      Inv names done cur s ->
+      Inv names (fst (pstep done cur o)) (snd (pstep done cur o)) (step s o).
+  Proof.
+    intros names done cur s o H. destruct s as [|e|m|m fb]; simpl in H.
+    - destruct H.
+    - simpl. eapply SErr_incl; [apply pstep_incl|exact H].
+    - destruct H as [-> HN]. rewrite pstep_none. simpl. apply step_normal_inv. exact HN.
+    - destruct H as (fps & f & ds & -> & HN & HF).
+      assert (Hnd : (forall n d, o <> OPartialDeriv n d) ->
+                    Inv names (fst (pstep done (Some (fps, f, ds)) o))
+                        (snd (pstep done (Some (fps, f, ds)) o)) (step (SFunctionBuilding m fb) o)).
+      { intros Ho. rewrite pstep_nonderiv, step_fb_nonderiv by exact Ho. simpl flush.
+        pose proof (finalize_spec HN HF) as Hfin.
+        destruct (finalize m fb) as [|e|m'|m' fb'].
+        - destruct Hfin.
+        - simpl. eapply SErr_incl; [apply pnormal_incl|exact Hfin].
+        - apply step_normal_inv. exact Hfin.
+        - destruct Hfin. }
+      destruct o as [fps' f'|n d|f0|x|l]; try (apply Hnd; intros; discriminate).
+      simpl. exists fps, f, (ds ++ [(n, d)]). split; [reflexivity|]. split; [exact HN|].
+      apply fb_pd_inv; [exact (ni_names_ok HN)|exact HF].
+  Qed.
+
+  (* ================= finishing ================= *)
+  Lemma fun_dec : forall done : list item,
+      (exists i, In i done /\ is_function i) \/ (forall i, In i done -> ~ is_function i).
+  Proof.
+    induction done as [|it r IH].
+    - right. intros i [].
+    - destruct IH as [(i & Hi & Hf)|IH].
+      + left. exists i. split; [right; exact Hi|exact Hf].
+      + destruct it as [fps f ds|f0|x|l|n d];
+          try (left; eexists; split; [left; reflexivity|exact I]);
+          right; intros i [<-|Hi]; simpl; auto.
+  Qed.
+
+  Definition Post (names : list name) (its : list item) (r : outcome name (smodel name Fn Fn0 X Sc)) : Prop :=
+    match r with
+    | Panic => False
+    | Fail e => defectL names its e
+    | Done _ => validL names its
+    end.
+
+  Lemma try_into_spec : forall names done m, NInv names done m -> Post names done (try_into m).
+  Proof.
+    intros names done m HN. pose proof HN as [Hno Hn Hs Hg Hi Hne Hk Hx Hin].
+    unfold ModelBuilder.try_into.
+    destruct (u_funs m) as [|mf0 funs] eqn:Ef.
+    - simpl. apply Hne. reflexivity.
+    - destruct (u_names m) as [|a r] eqn:En.
+      + simpl. left. congruence.
+      + rewrite Hn. rewrite <- Ef. rewrite <- Ef in Hk, Hne.
+        destruct (first_unused names 0 (u_funs m)) as [n|] eqn:Efu.
+        * apply first_unused_some in Efu. destruct Efu as (k & Hnth & Hex). simpl in Hex.
+          simpl. split; [eapply nth_error_In; eauto|].
+          intros fps f ds Hin' Hnf.
+          assert (Ht : existsb (fun mf : mfun => has_key k (f_derivs mf)) (u_funs m) = true).
+          { apply Hk. exists fps, f, ds, n. split; [exact Hin'|]. split; [exact Hnf|].
+            apply nth_position_NoDup; [apply Hno|exact Hnth]. }
+          congruence.
+        * pose proof (first_unused_none _ _ _ Efu) as Hall. simpl in Hall.
+          destruct (u_x m) as [x|].
+          -- destruct (u_init m) as [l|].
+             ++ simpl. unfold validL. split; [exact Hno|]. split; [exact Hs|]. split; [exact Hg|].
+                split; [|split; [|split; [exact Hx|split; [exact Hin|exact Hi]]]].
+                ** destruct (fun_dec done) as [Hc|Hc]; [exact Hc|].
+                   apply Hne in Hc. congruence.
+                ** intros n Hn'. apply In_nth_error in Hn'. destruct Hn' as [k Hnth].
+                   pose proof (Hall _ _ Hnth) as Ht. apply Hk in Ht.
+                   destruct Ht as (fps & f & ds & n' & H1 & H2 & H3).
+                   apply position_nth in H3. assert (n' = n) by congruence. subst n'.
+                   exists fps, f, ds. tauto.
+             ++ simpl. exact Hin.
+          -- simpl. exact Hx.
+  Qed.
+
+  Lemma build_spec : forall names done cur s,
+      Inv names done cur s -> Post names (done ++ flush cur) (sb_build s).
+  Proof.
+    intros names done cur s H. destruct s as [|e|m|m fb]; simpl in H.
+    - destruct H.
+    - simpl. apply H. apply incl_appl, incl_refl.
+    - destruct H as [-> HN]. simpl. rewrite app_nil_r. apply try_into_spec. exact HN.
+    - destruct H as (fps & f & ds & -> & HN & HF). simpl.
+      pose proof (finalize_spec HN HF) as Hfin.
+      destruct (finalize m fb) as [|e|m'|m' fb'].
+      + destruct Hfin.
+      + simpl. apply Hfin. apply incl_refl.
+      + apply try_into_spec. exact Hfin.
+      + destruct Hfin.
+  Qed.
+
+  Lemma run_spec : forall names ops done cur s,
+      Inv names done cur s ->
+      Post names (done ++ parse ops cur) (sb_build (fold_left step ops s)).
+  Proof.
+    intros names. induction ops as [|o ops IH]; intros done cur s H.
+    - simpl fold_left. simpl parse. apply build_spec. exact H.
+    - simpl fold_left. rewrite parse_cons. apply IH. apply step_inv. exact H.
+  Qed.
+
+  Lemma sb_new_inv : forall names, Inv names [] None (sb_new names).
+  Proof.
+    intros names. unfold ModelBuilder.sb_new. destruct (cpn names) as [e|] eqn:E.
+    - simpl. intros its _.
+      destruct (cpn_some _ _ E) as [[-> ->]|[(n & -> & Hn & Hc)|[-> Hnd]]]; simpl.
+      + left. reflexivity.
+      + split; [exact Hc|]. left. exact Hn.
+      + split; [exact Hnd|]. left. reflexivity.
+    - apply cpn_none in E. simpl. split; [reflexivity|].
+      constructor; simpl; try reflexivity; try (intros; tauto); try tauto.
+      intros k. split; [discriminate|]. intros (fps & f & ds & n & [] & _).
+  Qed.
+
+  Lemma run_post : forall names ops, Post names (items ops) (run_builder names ops).
+  Proof.
+    intros names ops. unfold ModelBuilder.run_builder.
+    change (items ops) with ([] ++ parse ops None). apply run_spec. apply sb_new_inv.
+  Qed.
+
+  (* ================= 1. the builder never panics ================= *)
+  Theorem no_panic : forall names ops,
+      @ModelBuilder.run_builder name Fn Fn0 X Sc name_eqb has_comma arity names ops <> Panic.
+  Proof.
+    intros names ops H. pose proof (run_post names ops) as HP. rewrite H in HP. exact HP.
+  Qed.
+
+  (* ================= 3. a returned error names a defect that is present ================= *)
+  Theorem run_err_sound : forall names ops e,
+      @ModelBuilder.run_builder name Fn Fn0 X Sc name_eqb has_comma arity names ops = Fail e ->
+      @ModelBuilderSpec.defect name Fn Fn0 X Sc has_comma arity names ops e.
+  Proof.
+    intros names ops e H. pose proof (run_post names ops) as HP. rewrite H in HP.
+    rewrite defect_defectL. exact HP.
+  Qed.
+
+  (* ================= 2. a model is returned exactly for the valid call sequences ============ *)
+  Theorem run_ok_iff : forall names ops,
+      (exists m, @ModelBuilder.run_builder name Fn Fn0 X Sc name_eqb has_comma arity names ops = Done m)
+      <-> @ModelBuilderSpec.valid name Fn Fn0 X Sc has_comma arity names ops.
+  Proof.
+    intros names ops. pose proof (run_post names ops) as HP. rewrite valid_validL. split.
+    - intros [m H]. rewrite H in HP. exact HP.
+    - intros Hv. destruct (run_builder names ops) as [|e|m]; simpl in HP.
+      + destruct HP.
+      + exfalso. exact (defect_not_valid _ _ _ HP Hv).
+      + exists m. reflexivity.
+  Qed.
+End Proofs.
+
+(* ================= 5. non-vacuity: concrete programs ================= *)
+Module Examples.
+  (* names are numbers, "contains a comma" = at least 1000; a closure is its arity *)
+  Definition hc (n : nat) : bool := 1000 <=? n.
+  Definition ar (f : nat) : nat := f.
+  Notation op := (mop nat nat unit unit nat).
+  Definition run (names : list nat) (ops : list op) :=
+    @run_builder nat nat unit unit nat Nat.eqb hc ar names ops.
+  Definition Fun (fps : list nat) (f : nat) : op := OFunction fps f.
+  Definition PD (n : nat) (d : nat) : op := OPartialDeriv n d.
+  Definition Inv0 : op := OInvariant tt.
+  Definition Xv : op := OIndepVar tt.
+  Definition Init (l : list nat) : op := OInitParams l.
+
+  (* two parameters; f(1,2) with derivatives given in reverse order, an invariant function,
+     g(2) with its derivative, x and initial parameters *)
+  Definition good : list op :=
+    [Fun [1; 2] 2; PD 2 2; PD 1 2; Inv0; Fun [2] 1; PD 2 1; Xv; Init [5; 6]].
+
+  Example good_done : exists m, run [1; 2] good = Done m.
+  Proof. eexists. vm_compute. reflexivity. Qed.
+
+  Example good_valid : @valid nat nat unit unit nat hc ar [1; 2] good.
+  Proof. apply (run_ok_iff Nat.eqb hc ar Nat.eqb_eq). exact good_done. Qed.
+
+  (* the derivative keys of f are model indices 1 then 0 (insertion order), the mapping is [0;1] *)
+  Example good_model :
+    match run [1; 2] good with
+    | Done m => map (fun mf => map fst (f_derivs mf)) (sm_funs m) = [[1; 0]; []; [1]]
+                /\ sm_names m = [1; 2] /\ sm_params m = [5; 6]
+    | _ => False
+    end.
+  Proof. vm_compute. repeat split. Qed.
+
+  (* one invalid program per error kind *)
+  Example bad_duplicate_names : run [1; 1] good = Fail (DuplicateParameterNames [1; 1]).
+  Proof. vm_compute. reflexivity. Qed.
+  Example bad_empty_names : run [] good = Fail EmptyParameters.
+  Proof. vm_compute. reflexivity. Qed.
+  Example bad_comma : run [1; 1000] good = Fail (CommaInParameterNameNotAllowed 1000).
+  Proof. vm_compute. reflexivity. Qed.
+  Example bad_empty_fparams : run [1] [Fun [] 0; Xv; Init [0]] = Fail EmptyParameters.
+  Proof. vm_compute. reflexivity. Qed.
+  Example bad_not_in_model :
+    run [1; 2] [Fun [3] 1; Xv; Init [5; 6]] = Fail (FunctionParameterNotInModel 3).
+  Proof. vm_compute. reflexivity. Qed.
+  Example bad_invalid_derivative :
+    run [1; 2] [Fun [1] 1; PD 2 1; Xv; Init [5; 6]] = Fail (InvalidDerivative 2 [1]).
+  Proof. vm_compute. reflexivity. Qed.
+  Example bad_duplicate_derivative :
+    run [1; 2] [Fun [1; 2] 2; PD 1 2; PD 1 2; PD 2 2; Xv; Init [5; 6]] = Fail (DuplicateDerivative 1).
+  Proof. vm_compute. reflexivity. Qed.
+  Example bad_missing_derivative :
+    run [1; 2] [Fun [1; 2] 2; PD 1 2; Xv; Init [5; 6]] = Fail (MissingDerivative 2 [1; 2]).
+  Proof. vm_compute. reflexivity. Qed.
+  Example bad_empty_model : run [1] [Xv; Init [0]] = Fail EmptyModel.
+  Proof. vm_compute. reflexivity. Qed.
+  Example bad_unused :
+    run [1; 2] [Fun [1] 1; PD 1 1; Inv0; Xv; Init [5; 6]] = Fail (UnusedParameter 2).
+  Proof. vm_compute. reflexivity. Qed.
+  Example bad_count_function :
+    run [1; 2] [Fun [1; 2] 1; Xv; Init [5; 6]] = Fail (IncorrectParameterCount 2 1).
+  Proof. vm_compute. reflexivity. Qed.
+  Example bad_count_derivative :
+    run [1; 2] [Fun [1; 2] 2; PD 1 3; Xv; Init [5; 6]] = Fail (IncorrectParameterCount 2 3).
+  Proof. vm_compute. reflexivity. Qed.
+  Example bad_count_init :
+    run [1; 2] [Fun [1; 2] 2; PD 1 2; PD 2 2; Xv; Init [5]] = Fail (IncorrectParameterCount 1 2).
+  Proof. vm_compute. reflexivity. Qed.
+  Example bad_missing_x :
+    run [1] [Fun [1] 1; PD 1 1; Init [0]] = Fail MissingX.
+  Proof. vm_compute. reflexivity. Qed.
+  Example bad_missing_init :
+    run [1] [Fun [1] 1; PD 1 1; Xv] = Fail MissingInitialParameters.
+  Proof. vm_compute. reflexivity. Qed.
+  Example bad_stray : run [1] [Inv0; PD 1 1; Xv; Init [0]] = Fail IllegalCallToPartialDeriv.
+  Proof. vm_compute. reflexivity. Qed.
+
+  (* ... each of which is, by the theorems, not valid and has the named defect *)
+  Example bad_missing_derivative_invalid :
+    ~ @valid nat nat unit unit nat hc ar [1; 2] [Fun [1; 2] 2; PD 1 2; Xv; Init [5; 6]].
+  Proof.
+    intros H. apply (run_ok_iff Nat.eqb hc ar Nat.eqb_eq) in H. destruct H as [m H].
+    pose proof bad_missing_derivative as Hb. unfold run in Hb. rewrite Hb in H. discriminate.
+  Qed.
+  Example bad_missing_derivative_defect :
+    @defect nat nat unit unit nat hc ar [1; 2] [Fun [1; 2] 2; PD 1 2; Xv; Init [5; 6]]
+            (MissingDerivative 2 [1; 2]).
+  Proof. apply (run_err_sound Nat.eqb hc ar Nat.eqb_eq). exact bad_missing_derivative. Qed.
+End Examples.
+
+Check no_panic.
+Check run_ok_iff.
+Check run_err_sound.
+Check sticky.
+Print Assumptions no_panic.
+Print Assumptions run_ok_iff.
+Print Assumptions run_err_sound.
+Print Assumptions sticky.
